@@ -341,6 +341,88 @@ def check_one(ob, timeout_ms, seed=0, mbqi=True):
     return str(r), dt, model, reason, sol
 
 
+def _nonlinear_terms(fs):
+    """maximal nonlinear arithmetic subterms (products of two non-numerals, division / modulus by a non-numeral, powers)"""
+    seen, out = set(), []
+    NL_DIV = (z3.Z3_OP_DIV, z3.Z3_OP_IDIV, z3.Z3_OP_MOD, z3.Z3_OP_REM)
+
+    def is_num(e):
+        return z3.is_int_value(e) or z3.is_rational_value(e) or z3.is_algebraic_value(e)
+
+    def nonlinear(e):
+        if not z3.is_app(e):
+            return False
+        k = e.decl().kind()
+        ch = e.children()
+        if k == z3.Z3_OP_MUL:
+            return sum(1 for c in ch if not is_num(c)) >= 2
+        if k in NL_DIV:
+            return len(ch) == 2 and not is_num(ch[1])
+        if k == z3.Z3_OP_POWER:
+            return True
+        return False
+
+    def walk(e):
+        if e.get_id() in seen:
+            return
+        seen.add(e.get_id())
+        if z3.is_quantifier(e):
+            walk(e.body())
+            return
+        if nonlinear(e):
+            # only ground terms can be named by a constant
+            if not _has_var(e):
+                out.append(e)
+                return
+        for c in e.children():
+            walk(c)
+    for f in fs:
+        walk(f)
+    return out
+
+
+def _has_var(e, _cache={}):
+    todo, seen = [e], set()
+    while todo:
+        x = todo.pop()
+        if x.get_id() in seen:
+            continue
+        seen.add(x.get_id())
+        if z3.is_var(x):
+            return True
+        if z3.is_quantifier(x):
+            todo.append(x.body())
+        else:
+            todo.extend(x.children())
+    return False
+
+
+def check_abstracted(ob, timeout_ms):
+    """GENERALISATION (sound for validity): every ground nonlinear term is replaced, consistently, by a fresh constant; if the
+    generalised VC is valid so is the original.  Keeps obligations whose context merely MENTIONS int(round(N*rho)) and the like
+    out of z3's nonlinear solver.  Returns None when there is nothing to abstract or the abstraction is not proved."""
+    fs = list(ob.pc) + [ob.goal]
+    terms = _nonlinear_terms(fs)
+    if not terms:
+        return None
+    pairs, names = [], {}
+    for t in terms:
+        key = t.get_id()
+        if key not in names:
+            names[key] = z3.FreshConst(t.sort(), 'nl')
+            pairs.append((t, names[key]))
+    sol = z3.Solver()
+    sol.set('timeout', timeout_ms)
+    for f in ob.pc:
+        sol.add(z3.substitute(f, *pairs))
+    sol.add(Not(z3.substitute(ob.goal, *pairs)))
+    t0 = time.time()
+    r = sol.check()
+    if r == z3.unsat:
+        return 'unsat', time.time() - t0, None, 'nonlinear terms generalised to fresh constants', sol
+    return None
+
+
 def model_to_dict(model, limit=60):
     out = {}
     if model is None:
@@ -354,7 +436,7 @@ def model_to_dict(model, limit=60):
 
 
 def verify_unit(contract_qual, case_name, registry_factory, tier='quick', proof_timeout_ms=20000,
-                finite_timeout_ms=20000, scopes=((3, 3),), smt_dir=None):
+                finite_timeout_ms=20000, scopes=((3, 3),), smt_dir=None, retries=True):
     """Runs one unit in proof mode, then (always) in finite mode for the vacuity guards and to refute
     whatever proof mode left open.  Returns a plain dict (picklable)."""
     t0 = time.time()
@@ -383,6 +465,11 @@ def verify_unit(contract_qual, case_name, registry_factory, tier='quick', proof_
             # first pass: short budget (baseline VCs take milliseconds); what stays open goes to the
             # finite-scope refutation first and only then gets the long proof budget
             r, dt, model, reason, sol = check_one(ob, fast_ms)
+            if r == 'unknown':
+                ab = check_abstracted(ob, fast_ms)
+                if ab is not None:
+                    r, dt2, model, reason, _ = ab
+                    dt += dt2
             if r == 'unknown':
                 sp = check_split(ob, fast_ms)
                 if sp is not None:
@@ -459,12 +546,17 @@ def verify_unit(contract_qual, case_name, registry_factory, tier='quick', proof_
                 continue
             r, dt, model, reason, _ = check_one(ob, proof_timeout_ms)
             if r == 'unknown':
+                ab = check_abstracted(ob, proof_timeout_ms)
+                if ab is not None:
+                    r, dt2, model, reason, _ = ab
+                    dt += dt2
+            if r == 'unknown':
                 sp = check_split(ob, proof_timeout_ms)
                 if sp is not None:
                     r, dt2, model, reason, _ = sp
                     dt += dt2
             # solver instability guard: other seeds / pure E-matching before giving up
-            for seed, mbqi in ((11, True), (0, False), (23, True)):
+            for seed, mbqi in (((11, True), (0, False), (23, True)) if retries else ((0, False),)):
                 if r != 'unknown':
                     break
                 r, dt2, model, reason, _ = check_one(ob, proof_timeout_ms, seed=seed, mbqi=mbqi)
